@@ -428,14 +428,36 @@ func Gen(t *rapid.T, o Options) *Layout {
 		}
 		return nil
 	}
+	// an interface field that some implementers compute with @requires and others serve
+	// directly ('shippingEstimate' on the interface, '@requires(fields: "weight")' on one
+	// implementer): selected on the interface it has to be planned per implementer
+	ifaceRequires := len(i1Impl) > 0 && !o.NoRequires && !o.Exclude["requires-on-iface-field"] && rapid.IntRange(0, 2).Draw(t, "ireq") == 0
+	if ifaceRequires {
+		m.table["ireq"] = &field{name: "ireq", typ: "String", named: "String", provides: map[int]string{}}
+		m.ifaces["I1"] = append(m.ifaces["I1"], "ireq")
+		m.feat["requires-on-iface-field"] = true
+	}
 	// @requires: a computed field owned by a subgraph that does not own the required scalar
 	for _, e := range m.objs {
 		if !e.entity {
 			continue
 		}
+		if ifaceRequires && hasS(i1Impl, e.name) {
+			f := &field{name: "ireq", typ: "String", named: "String", owners: []int{owner("ireqown")}, provides: map[int]string{}}
+			if rapid.Bool().Draw(t, "ireqcomputed") {
+				for _, g := range e.fields {
+					if g.args == "" && isScalarName(g.named) && len(g.owners) == 1 && g.owners[0] != f.owners[0] && !strings.HasPrefix(g.name, "err") && !strings.HasPrefix(g.name, "echo") && g.name != "ireq" {
+						f.requires = g.name
+						break
+					}
+				}
+			}
+			e.fields = append(e.fields, f)
+			e.fieldSet["ireq"] = f
+		}
 		var extra []*field
 		for _, g := range e.fields {
-			if g.args != "" || !isScalarName(g.named) || len(g.owners) != 1 || strings.HasPrefix(g.name, "err") || strings.HasPrefix(g.name, "echo") {
+			if g.args != "" || !isScalarName(g.named) || len(g.owners) != 1 || strings.HasPrefix(g.name, "err") || strings.HasPrefix(g.name, "echo") || g.requires != "" || g.name == "ireq" {
 				continue
 			}
 			if rapid.IntRange(0, 3).Draw(t, "req") != 0 {
